@@ -104,3 +104,10 @@ def check_cull_policy(ctx, rep, rule):
     pol = [k.value for c in ast.walk(fn) if isinstance(c, ast.Call) for k in c.keywords if k.arg == "allow_replace_if"]
     okp = len(pol) == 1 and isinstance(pol[0], ast.Lambda) and re.fullmatch(r"(\w+)\.error_handling or \1\.target in valid_replacers", ast.unparse(pol[0].body)) is not None
     rep.check(okp, rule, fq, "replacement policy: existing error paths and same-target transitions may be replaced", "replacement policy of append_after changed: re-derive the agreement with the cull test")
+    # order of installation: the chained start's Else transitions first, its explicit ones after - an explicit no-match entry (the `{excluded bytes, End}` of a wildcard) installed
+    # first would be folded into the end state's own Else edge (same target / flags) by DFState.transition and then replaced by the chained Else
+    first = model.find(fq, "chained_transitions = [x for x in chained_dfa.starting_state.transitions if DFTransition.Else in x.on_values]")
+    then = model.find(fq, "chained_transitions.extend((x for x in chained_dfa.starting_state.transitions if DFTransition.Else not in x.on_values))")
+    rep.check(bool(first) and bool(then) and first[0][0].lineno < then[0][0].lineno, rule, fq, "chained Else transitions are installed before the explicit ones",
+              "the chained start's explicit transitions are installed before its Else: the explicit End / excluded-byte entry of a wildcard is folded into the end state's Else edge and then replaced - "
+              "`\"a\"; optional { \"b\"; } /[^b]/;` lets end() follow the wildcard")
